@@ -46,8 +46,9 @@ func runC14(c *engine.Ctx) {
 			okPeriod := isC && period == 1_000_000_000
 			stopSrc := engine.Provenance(args[2], engine.ProvOpts{})
 			okStop := false
+			doneF := field(c, strings.Split(side.sym, ".")[0], "Control", "doneCh")
 			for fv := range stopSrc.Fields {
-				if fv.Name() == "doneCh" {
+				if fv == doneF {
 					okStop = true
 				}
 			}
@@ -98,7 +99,7 @@ func runC14(c *engine.Ctx) {
 					return false
 				}
 				o := engine.CalleeObj(cc)
-				return o != nil && (o.Name() == "Close" || o.Name() == "closeSession")
+				return o != nil && (o.Name() == "Close" || engine.SameFunc(o, c.P.MethodObj("client", "Control", "closeSession")))
 			}
 			closes := 0
 			engine.ForEachInstr(cl, func(in ssa.Instruction) {
@@ -503,27 +504,33 @@ func checkOIDCSubjects(c *engine.Ctx, rule string) {
 		return
 	}
 	n := 0
-	engine.ForEachInstr(f, func(in ssa.Instruction) {
-		st, ok := in.(*ssa.Store)
-		if !ok {
-			return
-		}
-		if lf, _ := engine.LoadedField(st.Addr); lf != sf {
-			return
-		}
-		n++
-		okApp := false
-		if call, ok := st.Val.(*ssa.Call); ok {
-			if b, ok := call.Call.Value.(*ssa.Builtin); ok && b.Name() == "append" {
-				// first operand: the field itself, unsliced
-				if lf, _ := engine.LoadedField(call.Call.Args[0]); lf == sf {
-					okApp = true
+	for _, g := range allFuncsOfPkg(f.Pkg) {
+		engine.ForEachInstr(g, func(in ssa.Instruction) {
+			st, ok := in.(*ssa.Store)
+			if !ok {
+				return
+			}
+			lf, base := engine.LoadedField(st.Addr)
+			if lf != sf {
+				return
+			}
+			if _, fresh := engine.Unwrap(base).(*ssa.Alloc); fresh {
+				return // initialisation of a verifier under construction
+			}
+			n++
+			okApp := false
+			if call, ok := st.Val.(*ssa.Call); ok {
+				if b, ok := call.Call.Value.(*ssa.Builtin); ok && b.Name() == "append" {
+					// first operand: the field itself, unsliced
+					if lf, _ := engine.LoadedField(call.Call.Args[0]); lf == sf {
+						okApp = true
+					}
 				}
 			}
-		}
-		c.Check(okApp, "pkg/auth.OidcAuthConsumer.VerifyLogin>subjects", in.Pos(), 1, []string{"stored: " + engine.Describe(st.Val)},
-			"the set of logged-in subjects is extended with append(subjectsFromLogin, …)")
-	})
+			c.Check(okApp, c.P.FuncName(g)+">subjects", in.Pos(), 1, []string{"stored: " + engine.Describe(st.Val)},
+				"the set of logged-in subjects is extended with append(subjectsFromLogin, …)")
+		})
+	}
 	c.Floor(n, 1)
 }
 
